@@ -3,6 +3,7 @@
     algebra of the implementation model (Model/PrimEq.v), on one column.
     ExtrOcamlBasic only: Z, positive, Q, nat stay inductive. *)
 From Dino Require Import Base.Ops Base.Sums Base.Ord Model.Sigma Model.Implicit Model.PrimEq Model.PrimEqSpec Extract.Common.
+From Dino Require Import Model.SHT Model.Deriv Model.PrimEqFull.
 Require Extraction.
 Require Import ExtrOcamlBasic.
 
@@ -48,7 +49,44 @@ Definition run_C05 (cmd : Z) (ints : list Z) (arrs : list (list Q)) : option (li
   | _ => None
   end.
 
+(** *** the EXECUTED whole-state model (Model/PrimEqFull.v) on a whole state; same argument conventions as
+    commands 20-21 of Extract/ExC04.v (all arrays flat row-major):
+    ints = [M; L; I; J; K; ntr]
+    arrs = [0 f (I x R); 1 p (R x J x L); 2 w (J); 3 a (R x L); 4 b (R x L); 5 sec2_lat (J); 6 sin_lat (J);
+            7 [radius; angular_velocity; g; R; kappa]; 8 log(centers) (K); 9 boundaries (K+1); 10 T_ref (K);
+            11 orography (R x L); 12 vorticity (K x R x L); 13 divergence; 14 temperature_variation;
+            15 log_surface_pressure (R x L); 16 tracers (ntr x K x R x L)] *)
+Definition hgrid05 (ints : list Z) (arrs : list (list Q)) : @HGrid Q :=
+  let M := intn ints 0 in let L := intn ints 1 in let I := intn ints 2 in let J := intn ints 3 in
+  let R := modal_rows_real M in
+  mkHG M L I J (scalar arrs 7 0) (SHT.arr2 I R (arr arrs 0)) (SHT.arr3 R J L (arr arrs 1)) (arrf arrs 2)
+       (SHT.arr2 R L (arr arrs 3)) (SHT.arr2 R L (arr arrs 4)) (arrf arrs 5) (arrf arrs 6) (scalar arrs 7 1).
+Definition vcfg05 (ints : list Z) (arrs : list (list Q)) : @PEcfg Q :=
+  mkPE (intn ints 4) (scalar arrs 7 3) (scalar arrs 7 4) (arrf arrs 8) (arrf arrs 9) (arrf arrs 10).
+Definition slice5 (K A B : nat) (l : list Q) (n : nat) : nat -> nat -> nat -> Q :=
+  SHT.arr3 K A B (firstn (K * (A * B)) (skipn (n * (K * (A * B))) l)).
+Definition state05 (ints : list Z) (arrs : list (list Q)) : @State Q :=
+  let M := intn ints 0 in let L := intn ints 1 in let K := intn ints 4 in let ntr := intn ints 5 in
+  let R := modal_rows_real M in
+  mkState (SHT.arr3 K R L (arr arrs 12)) (SHT.arr3 K R L (arr arrs 13)) (SHT.arr3 K R L (arr arrs 14))
+          (SHT.arr2 R L (arr arrs 15)) (map (slice5 K R L (arr arrs 16)) (seq 0 ntr)).
+Definition state_out05 (K R L : nat) (s : @State Q) : list Q :=
+  SHT.tab3 K R L (s_vort s) ++ SHT.tab3 K R L (s_div s) ++ SHT.tab3 K R L (s_temp s) ++ SHT.tab2 R L (s_lnps s)
+  ++ concat (map (SHT.tab3 K R L) (s_tr s)).
+
+Definition run_C05_full (cmd : Z) (ints : list Z) (arrs : list (list Q)) : option (list Q) :=
+  let M := intn ints 0 in let L := intn ints 1 in let K := intn ints 4 in let R := modal_rows_real M in
+  let g := hgrid05 ints arrs in
+  let c := vcfg05 ints arrs in
+  let grav := scalar arrs 7 2 in
+  let orog := SHT.arr2 R L (arr arrs 11) in
+  match cmd with
+  | 30%Z => Some (state_out05 K R L (explicit_terms_full g c grav orog (state05 ints arrs)))
+  | 31%Z => Some (state_out05 K R L (implicit_terms_full g c (state05 ints arrs)))
+  | _ => None
+  end.
+
 Definition run (prop cmd : Z) (ints : list Z) (arrs : list (list Q)) : option (list Q) :=
-  run_C05 cmd ints arrs.
+  if Z.leb 30 cmd then run_C05_full cmd ints arrs else run_C05 cmd ints arrs.
 
 Extraction "Extract/ml/C05/dispatch.ml" run.
